@@ -1216,11 +1216,26 @@ impl SessionContext {
             // Remember to update `reset_runtime_variable()` when adding new options
         };
 
-        *state = SessionStateBuilder::from(state.clone())
-            .with_runtime_env(Arc::new(builder.build()?))
-            .build();
+        Self::replace_runtime_env(&mut state, Arc::new(builder.build()?));
 
         Ok(())
+    }
+
+    /// Rebuilds `state` with the given runtime environment, leaving the
+    /// configuration options as they are.
+    fn replace_runtime_env(state: &mut SessionState, runtime_env: Arc<RuntimeEnv>) {
+        // A state built from an existing one turns this option off, since the
+        // default catalog exists already. Keep the configured value:
+        let create_default_catalog_and_schema =
+            state.config().create_default_catalog_and_schema();
+        *state = SessionStateBuilder::from(state.clone())
+            .with_runtime_env(runtime_env)
+            .build();
+        state
+            .config_mut()
+            .options_mut()
+            .catalog
+            .create_default_catalog_and_schema = create_default_catalog_and_schema;
     }
 
     fn reset_runtime_variable(&self, variable: &str) -> Result<()> {
@@ -1262,9 +1277,7 @@ impl SessionContext {
             }
             _ => return plan_err!("Unknown runtime configuration: {variable}"),
         };
-        *state = SessionStateBuilder::from(state.clone())
-            .with_runtime_env(Arc::new(builder.build()?))
-            .build();
+        Self::replace_runtime_env(&mut state, Arc::new(builder.build()?));
 
         Ok(())
     }
